@@ -118,5 +118,5 @@ Definition fixSpaceAfterVarname (raws : list str) (varname spaceAfterVarname op 
   else if starts_lower varname && str_eqb op OP_EVAL then Ok raws
   else
     let before := lc p0 ++ vo p0 ++ sbv p0 in
-    after <- lift (alignWith (varname ++ op) before) ;;
+    after <- lift (alignWith (lc p0 ++ varname ++ op) before) ;;
     Ok (replaceAfter raws [] before after).
